@@ -152,6 +152,7 @@ type Anchored struct {
 }
 
 type PkgSpec struct {
+	StrictLayers bool // `layers`: labelled clauses of this package are active only when one of their properties is checked
 	Sorts     map[string]bool
 	UFuns     map[string]*UFun
 	Callbacks map[string]*Contract // "Heap.indexChanged"
@@ -163,7 +164,7 @@ type PkgSpec struct {
 	Axioms    []*Clause
 }
 
-var kwRe = regexp.MustCompile(`^(pure|pred|ghostinit|ghost|func|props|requires|ensures|trustens|panics|pensures|modifies|ghostparam|uses|inlinecall|dispatch|intwidth|anykinds|repeats|repeatargs|loop|ext|lemma|axiom|inline|trusted|decreases|ispure|noalloc|params|results|end|sort|ufun|callback|before|after|invokes)\b`)
+var kwRe = regexp.MustCompile(`^(pure|pred|ghostinit|ghost|func|props|requires|ensures|trustens|panics|pensures|modifies|ghostparam|uses|inlinecall|dispatch|intwidth|anykinds|repeats|repeatargs|loop|ext|lemma|axiom|inline|trusted|decreases|ispure|noalloc|layers|params|results|end|sort|ufun|callback|before|after|invokes)\b`)
 
 func loadPkgSpec(dir, pkgPath string) (*PkgSpec, error) {
 	ps := &PkgSpec{Path: pkgPath, Macros: map[string]*Macro{}, Ghosts: map[string]*GhostField{}, Contracts: map[string]*Contract{}, Sorts: map[string]bool{}, UFuns: map[string]*UFun{}, Callbacks: map[string]*Contract{}}
@@ -397,6 +398,8 @@ func (ps *PkgSpec) parseFile(file, data string) error {
 			cur.Pure = true
 		case "noalloc":
 			cur.NoAlloc = true
+		case "layers":
+			ps.StrictLayers = true
 		case "inline":
 			cur.Inline = true
 		case "trusted":
